@@ -4,7 +4,7 @@ use petgraph::{
     dot::{Config, Dot},
     graph::NodeIndex,
     stable_graph::StableDiGraph,
-    visit::{Dfs, EdgeRef, IntoNodeIdentifiers, Reversed, VisitMap, Visitable},
+    visit::{Dfs, EdgeRef, IntoEdgeReferences, IntoNodeIdentifiers, Reversed, VisitMap, Visitable},
     Direction,
 };
 use semver::Version;
@@ -552,6 +552,25 @@ impl CompositionGraph {
         self.imports
             .retain(|_, n| self.graph[*n].package != Some(package));
 
+        // Any arguments of surviving instantiations that were satisfied by a
+        // node associated with the package become unsatisfied again
+        for (target, index) in self
+            .graph
+            .edge_references()
+            .filter_map(|e| match e.weight() {
+                Edge::Argument(i)
+                    if self.graph[e.source()].package == Some(package)
+                        && self.graph[e.target()].package != Some(package) =>
+                {
+                    Some((e.target(), *i))
+                }
+                _ => None,
+            })
+            .collect::<Vec<_>>()
+        {
+            self.graph[target].remove_satisfied_arg(index);
+        }
+
         // Remove all nodes associated with the package
         self.graph
             .retain_nodes(|g, i| g[i].package != Some(package));
@@ -1012,6 +1031,19 @@ impl CompositionGraph {
             .collect::<Vec<_>>()
         {
             self.remove_node(node);
+        }
+
+        // Any arguments satisfied by this node become unsatisfied again
+        for (target, index) in self
+            .graph
+            .edges_directed(node.0, Direction::Outgoing)
+            .filter_map(|e| match e.weight() {
+                Edge::Argument(i) => Some((e.target(), *i)),
+                Edge::Alias(_) | Edge::Dependency => None,
+            })
+            .collect::<Vec<_>>()
+        {
+            self.graph[target].remove_satisfied_arg(index);
         }
 
         // Remove the node from the graph
